@@ -128,6 +128,39 @@ def extent(repo):
     return occ, changed
 
 
+STATE_PATTERNS = [
+    (r"\bthread_local\s*!", "thread_local!"),
+    (r"\blazy_static\s*!", "lazy_static!"),
+    (r"\bstatic\s+mut\b", "static mut"),
+    (r"\bstatic\s+(?:ref\s+)?[A-Za-z_][A-Za-z0-9_]*\s*:\s*[^=;]*\b(?:Cell|RefCell|UnsafeCell|Mutex|RwLock|Atomic[A-Za-z0-9]*|OnceCell|OnceLock|LazyLock|LazyCell|Lazy|Once)\b",
+     "static with interior mutability"),
+]
+
+
+def state_scan(repo):
+    """Global mutable state in the library sources: `thread_local!`, `lazy_static!`, `static mut`, a `static` whose type has interior
+    mutability — anywhere in the crates' `src` (also inside function bodies and in files the translator does not read).  The model
+    treats every library function as a function of its arguments; the baseline tree has no such item.  Returns [{file, line, what, text}]."""
+    found = []
+    for c in CRATES:
+        root = os.path.join(repo, c, "src")
+        for dp, _, fs in os.walk(root):
+            for f in sorted(fs):
+                if not f.endswith(".rs") or f == "tables.rs":
+                    continue
+                p = os.path.join(dp, f)
+                src = strip(open(p, encoding="utf-8").read())
+                # test modules do not count
+                cut = re.search(r"#\[cfg\(test\)\]\s*mod\b", src)
+                body = src[:cut.start()] if cut else src
+                for pat, what in STATE_PATTERNS:
+                    for m in re.finditer(pat, body):
+                        line = body.count("\n", 0, m.start()) + 1
+                        found.append({"file": os.path.relpath(p, repo), "line": line, "what": what,
+                                      "text": re.sub(r"\s+", " ", body[m.start():m.start() + 100])})
+    return found
+
+
 if __name__ == "__main__":
     import json, sys
     occ, ch = extent(sys.argv[1] if len(sys.argv) > 1 else "/repo")
